@@ -25,8 +25,18 @@ func TestC16(t *testing.T) {
 		if many {
 			signed = Tree{}
 			n := rapid.IntRange(1100, 1600).Draw(rt, "nmany")
+			// more wounds than the channel holds, produced by the file pass, the directory pass or the
+			// symlink pass (the latter two run before the validator's worker exists)
+			mk := rapid.IntRange(0, 3).Draw(rt, "manykind")
 			for i := 0; i < n; i++ {
-				signed[fmt.Sprintf("m/%04d", i)] = &Entry{Kind: KFile, Data: []byte{byte(i), byte(i >> 8)}}
+				switch {
+				case mk == 0 || (mk == 3 && i%3 == 0):
+					signed[fmt.Sprintf("m/%04d", i)] = &Entry{Kind: KFile, Data: []byte{byte(i), byte(i >> 8)}}
+				case mk == 1 || (mk == 3 && i%3 == 1):
+					signed[fmt.Sprintf("d/%04d", i)] = &Entry{Kind: KDir}
+				default:
+					signed[fmt.Sprintf("l/%04d", i)] = &Entry{Kind: KLink, Dest: fmt.Sprintf("../m/%04d", i)}
+				}
 			}
 			signed.Normalize()
 		} else {
@@ -50,6 +60,14 @@ func TestC16(t *testing.T) {
 					damaged[p].Data = []byte{0xff, 0xfe, 0xfd}
 				} else {
 					delete(damaged, p)
+				}
+			}
+			if many {
+				// missing directories and symlinks as well
+				for p, e := range signed {
+					if e.Kind == KLink || (e.Kind == KDir && len(p) > 2) {
+						delete(damaged, p)
+					}
 				}
 			}
 			applied = []Fault{{Kind: "delete-or-rewrite-all", Path: "*"}}
